@@ -36,6 +36,7 @@ def run(pid, tier):
                        'executions of the default build are validated by TLC (TVParser: unit boundaries, pending remainder, errors where specified); non-trivial = contains NUL / >= 0x80 / a token cut by a chunk end or overrun')
     rep.assumptions += ['the memory-safety / UB / termination verdict for the real code is the sanitizer and watchdog observation of runs that the model generated (TLC decides cursor, bounds and progress lemmas of the model)',
                         'no coverage-guided fuzzing (another technique)']
+    mcfut = pc.start_mc_inputloop()
     rng = random.Random(lib.seed())
     base = pc.gen(rep, 'C01', dict(MaxUnits=2), nparts=14, timeout=1500)
     rep.cov['strings_enumerated_by_tlc'] = len(base)
@@ -88,7 +89,7 @@ def run(pid, tier):
     ncap = 24000 if tier == 'quick' else 160000
     hot = hot[::max(1, -(-len(hot) // (ncap * 3 // 4)))]
     cold = cold[::max(1, -(-len(cold) // (ncap // 4)))]
-    pc.event_traces(rep, 'C01', hot + cold, 'C01')
+    pc.event_traces(rep, 'C01', hot + cold, 'C01', mc=mcfut)
     for b in BUILDS:
         obs = pc.execute(rep, scen, b, 'C01' + b)
         if b == 'default':
